@@ -56,7 +56,7 @@ PROPS = {
                    "term, malformed range, duplicate policy, policy without reject skipped (readInstalledEv_render; "
                    "readInstalledEv_refines gives the real ReadError classes); hence readback_total and run_converges hold with "
                    "the event-level reader in place of the abstract one (readback_total_ev, run_converges_ev); the model never "
-                   "runs out of fuel on ANY event list (readInstalledEv_total).",
+                   "runs out of fuel on ANY event list (readInstalledEv_total). Histories in which the router changes between runs (reboot, operator edits: any external change that leaves an agent state): every run converges for its own inputs (runs_with_external_changes, runs_with_reboots).",
         level_note="The theorems are for Cfg.fixed (a family empty before and after is not written; names unescaped). The "
                    "event-level theorems take the library calls (quick_xml unescape, generic-ip Prefix / PrefixLength from_str) "
                    "as oracles constrained, on the texts of the configuration, to what Policy.readRange assumes of them, and a "
@@ -139,7 +139,7 @@ PROPS = {
                    "any fair schedule of (pending events + 2 x undelivered messages) rounds delivers every message (those "
                    "before an eof, if there is one); kernel-evaluated counter-example for the variant that leaves the "
                    "enqueue loop when the queue is full (capacity 2, three messages in one packet: the third is stranded "
-                   "under every continuation).",
+                   "under every continuation). Channel messages that are not data (exit-status, stderr) are invisible wherever they are interleaved (pump_other_invisible, exit_status_as_eof_cex).",
         level_note="Theorem is about the Lean loop model (Model/Framing.lean); fidelity to tls.rs / junos_local.rs / ssh.rs is "
                    "sampled by the correspondence run (exhaustive single cuts around delimiters + random multi-cuts). "
                    "OS/TLS/SSH delivery of writes as reads is trusted; the theorem makes the verdict independent of it.",
@@ -285,7 +285,7 @@ PROPS = {
                    "into_result) refine a child-level semantics (reply_refines), from which: success implies no rpc-error of "
                    "severity error anywhere the grammar allows one, success implies the positive indication of the reply "
                    "type, and reported errors are exactly the reply's rpc-errors in order. The reader model is tied to the "
-                   "real code by injecting generated reply documents as replies to real requests of all four reply kinds.",
+                   "real code by injecting generated reply documents as replies to real requests of all four reply kinds. A frame with a second root element is never a success, for every grammar document, reply kind and continuation (second_root_never_success; second_root_masks_error_cex for the behaviour before the repair).",
         level_note="Theorems are about Model/Readers.lean over quick-xml event lists; tokenisation (quick-xml), namespace "
                    "resolution and read_text spans are observed by the harness and trusted. Documents outside the grammar "
                    "(e.g. two root elements) are covered by the correspondence run only.",
@@ -310,7 +310,7 @@ PROPS = {
                    "min(max(period,60 s), 60 s*2^n); SIGHUP while waiting starts a run at that instant; SIGINT/SIGTERM "
                    "while waiting end the loop and nothing is observed afterwards. Counter-example theorem for the pinned "
                    "rule (period 10 s: 60 s then 10 s). The real Loop::start is run under tokio's paused clock with a "
-                   "failing scripted connector and signals raised with raise(2) at scripted virtual times.",
+                   "failing scripted connector and signals raised with raise(2) at scripted virtual times. A run that panics is a failed run (JobEnd, panic_is_a_failed_run, retry_after_panic).",
         level_note="The theorems are about the Lean loop model (Model/Daemon.lean: one transition per select! arm); fidelity "
                    "to task.rs is sampled by the correspondence run, exact to the millisecond in virtual time. Failure "
                    "histories and signals run under the paused clock; histories with SUCCESSFUL runs (success arm: "
@@ -350,7 +350,7 @@ PROPS = {
                    "authority and path are exactly the table's and there is no query and no fragment, not even an empty "
                    "one (classify_*_iff, parseCapability_base10_iff), the :url schemes are exactly the values of the "
                    "parameters named `scheme` (mem_urlSchemes_iff), and without a capability text that decomposes to "
-                   "exactly :base:1.0 no session is established (established_has_exact_base10, establish_iff_exact).",
+                   "exactly :base:1.0 no session is established (established_has_exact_base10, establish_iff_exact). A hello followed by a further root element establishes nothing (second_root_refused, second_root_overwrites_cex).",
         level_note="URI validity/decomposition (iri-string) and tokenisation (quick-xml) are annotated inputs. Usability "
                    "rests on the modelling fact that every transport implements end-of-message framing only (C06 model); "
                    "a chunked-framing server is not exercised.",
@@ -378,7 +378,7 @@ PROPS = {
                    "runs out of fuel on ANY event list (readCandidates_total). For the code as it is in /repo: the same equality "
                    "under the hypothesis that no annotated active statement has other content "
                    "(candidates_eq_select_pinned_partial) and counter-examples to the full statement "
-                   "(other_content_fails_read_cex, then_accept_fails_read_cex, extra_then_selected_cex).",
+                   "(other_content_fails_read_cex, then_accept_fails_read_cex, extra_then_selected_cex). Attribute order: for a statement with at most one annotation the selection, and what the reader returns for the whole configuration, is the same for every permutation of its attributes (selected_attr_perm, readCandidates_attr_order).",
         level_note="Theorems are about Model/Fetch.lean over quick-xml event lists; tokenisation, namespace resolution, attribute "
                    "unescaping and read_text spans are observed by the harness and trusted. The rpsl parser and "
                    "quick_xml::escape::unescape enter as oracles (theorems hold for every oracle; the run uses the real "
@@ -477,7 +477,7 @@ PROPS = {
                    "message and every sequence of non-failing partial-write sizes everything is written (and under any "
                    "sizes a prefix, with Ok exactly when complete), and composed with C06: any number of serialised "
                    "requests written with any partial-write sizes and read with any segmentation are received exactly, "
-                   "in order; counter-example for a single write_buf call with a writer accepting less than the message.",
+                   "in order; counter-example for a single write_buf call with a writer accepting less than the message. The delimiter guard is a function of the message bytes, not of the writes that produced them; a per-write guard is strictly weaker (whole_guard_implies_block_guard, per_block_guard_cex).",
         level_note="Theorems are about the Lean tree/render model (Model/Writers.lean); that the real builders produce "
                    "exactly those bytes is sampled (every operation, every free-text slot x ~35 adversarial values, every "
                    "raw slot x 16 fragments, agent payloads through the plan facade). WFC is the XML subset the writers "
